@@ -99,10 +99,38 @@ def foldCount? (c : Ctx) (e : Eid) : Option (Option Nat) :=
 
 end Ctx
 
-/-- Everything the engine consults besides the IR: the adapter tables and the query arguments. -/
+/-- The adapter as the engine calls it (`trait Adapter`): every call carries the identity the
+engine puts into its `ResolveInfo` / `ResolveEdgeInfo` (the Vid or Eid being resolved), the type
+name, the field or edge name and — for edges — the parameters; contexts are represented by their
+active vertex (`none`: no active vertex).  Results are in `R` so that wrapper adapters that *check*
+the calls (contract, required properties) can be expressed as adapters that fail. -/
+structure Adapter where
+  start : (edge : Name) → Params → (vid : Vid) → R (List VertexId)
+  prop : (vid : Vid) → (typeName : Name) → (field : Name) → Option VertexId → R Value
+  nbrs : (eid : Eid) → (typeName : Name) → (edge : Name) → Params → Option VertexId → R (List VertexId)
+  coerce : (vid : Vid) → (typeName : Name) → (coerceTo : Name) → Option VertexId → R Bool
+
+/-- The table-driven adapter of the harness: it ignores the resolve-info identity and the type
+name, and honours the contract for a missing active vertex (null / no neighbours / false). -/
+def Data.adapter (d : Data) : Adapter where
+  start := fun edge ps _ => .ok (d.start edge ps)
+  prop := fun _ _ field v => .ok (d.propOpt v field)
+  nbrs := fun _ _ edge ps v => .ok (d.nbrsOpt v edge ps)
+  coerce := fun _ _ to v => .ok (match v with
+    | some x => d.isA x to
+    | none => false)
+
+/-- Everything the engine consults besides the IR: the adapter, the query arguments, the regex
+engine (a parameter of the model), and whether the fold-count shortcuts are enabled (they are in
+the real engine; `useLimits := false` is the reference semantics of C22). -/
 structure Env where
-  data : Data
+  adapter : Adapter
   args : List (Name × Value)
+  regex : Filter.RegexEngine
+  useLimits : Bool := true
+
+def Env.ofData (d : Data) (args : List (Name × Value)) : Env :=
+  { adapter := d.adapter, args := args, regex := d.regex }
 
 namespace Env
 def arg (env : Env) (n : Name) : R Value :=
@@ -111,39 +139,53 @@ def arg (env : Env) (n : Name) : R Value :=
   | none => .panic "query_arguments[variable]: missing"
 end Env
 
+def Component.typeOf (comp : Component) (vid : Vid) : R Name :=
+  match comp.vertex? vid with
+  | some v => .ok v.typeName
+  | none => .panic "component.vertices[&vid]"
+
 /-! ### coercion, local fields, filters -/
 
-/-- `coerce_if_needed` / `perform_coercion`. -/
-def coerceIfNeeded (env : Env) (v : IRVertex) (ctxs : List Ctx) : List Ctx :=
+/-- `coerce_if_needed` / `perform_coercion`: the adapter is asked about every context; a context
+is kept when the coercion holds or there is no active vertex. -/
+def coerceIfNeeded (env : Env) (v : IRVertex) (ctxs : List Ctx) : R (List Ctx) :=
   match v.coercedFrom with
-  | none => ctxs
-  | some _ =>
-    ctxs.filter fun c =>
-      match c.active with
-      | none => true
-      | some x => env.data.isA x v.typeName
+  | none => .ok ctxs
+  | some fromT =>
+    filterMapR (fun c => do
+      let can ← env.adapter.coerce v.vid fromT v.typeName c.active
+      pure (if can || c.active.isNone then some c else none)) ctxs
 
 /-- `compute_local_field`: the property of the *active* vertex is pushed on the value stack. -/
-def computeLocalField (env : Env) (field : Name) (ctxs : List Ctx) : List Ctx :=
-  ctxs.map fun c => c.pushValue (env.data.propOpt c.active field)
+def computeLocalField (env : Env) (vid : Vid) (typeName field : Name) (ctxs : List Ctx) : R (List Ctx) :=
+  mapR (fun c => do
+    let v ← env.adapter.prop vid typeName field c.active
+    pure (c.pushValue v)) ctxs
 
 /-- The tagged value of the right operand for one context (`apply_filter`'s three tag paths). -/
 def tagValue (env : Env) (comp : Component) (currentVid : Vid) (r : FieldRef) (c : Ctx) : R Tagged :=
   match r with
   | .ctx vid field _ =>
-    if vid == currentVid then
+    if vid == currentVid then do
       -- local equivalent field: resolved on the active vertex, always `TaggedValue::Some`
-      .ok (.some (env.data.propOpt c.active field))
-    else if (comp.vertex? vid).isSome then
-      -- `compute_context_field_with_separate_value`: suspend, move to `vertices[vid]`, resolve, restore
-      match c.vertexAt? vid with
-      | some (some x) => .ok (.some (env.data.prop x field))
-      | some none => .ok .nonexistent
-      | none => .panic "context.vertices[&vertex_id]"
+      let t ← comp.typeOf currentVid
+      let v ← env.adapter.prop currentVid t field c.active
+      pure (.some v)
     else
-      match c.tag? (.ctx vid field) with
-      | some t => .ok t
-      | none => .panic "context.imported_tags[&field_ref]"
+      match comp.vertex? vid with
+      | some vx =>
+        -- `compute_context_field_with_separate_value`: suspend, move to `vertices[vid]`, resolve, restore
+        match c.vertexAt? vid with
+        | some target => do
+          let v ← env.adapter.prop vid vx.typeName field target
+          pure (match target with
+            | some _ => Tagged.some v
+            | none => Tagged.nonexistent)
+        | none => .panic "context.vertices[&vertex_id]"
+      | none =>
+        match c.tag? (.ctx vid field) with
+        | some t => .ok t
+        | none => .panic "context.imported_tags[&field_ref]"
   | .fcount eid _ =>
     if comp.folds.any (·.eid == eid) then
       match c.foldCount? eid with
@@ -172,13 +214,13 @@ def applyFilter (env : Env) (comp : Component) (currentVid : Vid) (f : IRFilter)
     -- the regex of a variable is compiled when the pipeline is built, before any context flows
     let _ ← (if isRegexOp o then
         (R.ofOutcome "regex argument was not a valid regex"
-          (Filter.compileStaticRegex env.data.regex right)).map (fun _ => ())
+          (Filter.compileStaticRegex env.regex right)).map (fun _ => ())
       else R.ok ())
     filterMapR (fun c => do
       let (left, c') ← c.popValue
       if c'.active.isNone then pure (some c')
       else do
-        let b ← R.ofOutcome "filter operator: unreachable!" (Filter.applyStatic env.data.regex o left right)
+        let b ← R.ofOutcome "filter operator: unreachable!" (Filter.applyStatic env.regex o left right)
         pure (if b then some c' else none)) ctxs
   | .bin o, some (.tag r) =>
     filterMapR (fun c => do
@@ -189,7 +231,7 @@ def applyFilter (env : Env) (comp : Component) (currentVid : Vid) (f : IRFilter)
       | .some right =>
         if c'.active.isNone then pure (some c')
         else do
-          let b ← R.ofOutcome "filter operator: unreachable!" (Filter.applyTagged env.data.regex o left right)
+          let b ← R.ofOutcome "filter operator: unreachable!" (Filter.applyTagged env.regex o left right)
           pure (if b then some c' else none)) ctxs
   | .bin _, none => .panic "no argument present for filter"
 
@@ -197,7 +239,9 @@ def applyFilter (env : Env) (comp : Component) (currentVid : Vid) (f : IRFilter)
 def applyLocalFieldFilter (env : Env) (comp : Component) (vid : Vid) (f : IRFilter)
     (ctxs : List Ctx) : R (List Ctx) :=
   match f.left with
-  | .loc field _ => applyFilter env comp vid f (computeLocalField env field ctxs)
+  | .loc field _ =>
+    (comp.typeOf vid).bind fun t =>
+    (computeLocalField env vid t field ctxs).bind (applyFilter env comp vid f)
   | .count => .panic "local filter on a fold-specific field"
 
 def applyLocalFilters (env : Env) (comp : Component) (vid : Vid) :
@@ -207,7 +251,8 @@ def applyLocalFilters (env : Env) (comp : Component) (vid : Vid) :
 
 /-- `perform_entry_into_new_vertex`. -/
 def enterVertex (env : Env) (comp : Component) (v : IRVertex) (ctxs : List Ctx) : R (List Ctx) :=
-  (applyLocalFilters env comp v.vid v.filters (coerceIfNeeded env v ctxs)).bind
+  (coerceIfNeeded env v ctxs).bind fun coerced =>
+  (applyLocalFilters env comp v.vid v.filters coerced).bind
     (mapR fun c => c.recordVertex v.vid)
 
 /-! ### edges -/
@@ -218,10 +263,11 @@ def expandOne (c : Ctx) (nbrs : List VertexId) (isOptional : Bool) : List Ctx :=
     (if c.active.isNone || (nbrs.isEmpty && isOptional) then [c.splitTo none] else [])
 
 /-- `expand_non_recursive_edge`. -/
-def expandNonRecursive (env : Env) (e : IREdge) (ctxs : List Ctx) : R (List Ctx) :=
+def expandNonRecursive (env : Env) (fromType : Name) (e : IREdge) (ctxs : List Ctx) : R (List Ctx) :=
   flatMapR (fun c => do
     let c' ← c.activate e.fromVid
-    pure (expandOne c' (env.data.nbrsOpt c'.active e.name e.params) e.optional)) ctxs
+    let ns ← env.adapter.nbrs e.eid fromType e.name e.params c'.active
+    pure (expandOne c' ns e.optional)) ctxs
 
 mutual
 /-- `unpack_piggyback`: riders first (recursively), then the context itself. -/
@@ -232,34 +278,41 @@ def unpackList : List PCtx → List Ctx
   | p :: ps => unpack p ++ unpackList ps
 end
 
-/-- `RecursiveEdgeExpander` for one element. -/
-def recExpandOne (env : Env) (e : IREdge) : PCtx → List PCtx
+/-- `RecursiveEdgeExpander` for one element with its neighbours. -/
+def recExpandOne (ns : List VertexId) : PCtx → List PCtx
   | .mk c piggy =>
-    match env.data.nbrsOpt c.active e.name e.params with
+    match ns with
     | [] => [.mk c piggy]
     | n :: rest =>
       .mk (c.splitTo (some n)) [.mk c.ensureSuspended piggy] ::
         rest.map (fun m => .mk ((c.splitTo none).splitTo (some m)) [])
 
-/-- `perform_one_recursive_edge_expansion`. -/
-def recExpandLevel (env : Env) (e : IREdge) (ps : List PCtx) : List PCtx :=
-  ps.flatMap (recExpandOne env e)
+/-- `perform_one_recursive_edge_expansion` (the adapter sees the top-level elements only; riders
+travel inside them). -/
+def recExpandLevel (env : Env) (e : IREdge) (fromType : Name) (ps : List PCtx) : R (List PCtx) :=
+  flatMapR (fun p =>
+    match p with
+    | .mk c piggy => do
+      let ns ← env.adapter.nbrs e.eid fromType e.name e.params c.active
+      pure (recExpandOne ns (.mk c piggy))) ps
 
 /-- The coercion step between recursion levels: elements that cannot be coerced are suspended. -/
-def recCoerceLevel (env : Env) (coerceTo : Name) (ps : List PCtx) : List PCtx :=
-  ps.map fun
-    | .mk c piggy =>
-      match c.active with
-      | some x => if env.data.isA x coerceTo then .mk c piggy else .mk c.ensureSuspended piggy
-      | none => .mk c.ensureSuspended piggy
+def recCoerceLevel (env : Env) (e : IREdge) (endpointType coerceTo : Name) (ps : List PCtx) :
+    R (List PCtx) :=
+  mapR (fun p =>
+    match p with
+    | .mk c piggy => do
+      let can ← env.adapter.coerce e.fromVid endpointType coerceTo c.active
+      pure (if can then PCtx.mk c piggy else PCtx.mk c.ensureSuspended piggy)) ps
 
-def recLevels (env : Env) (e : IREdge) (coerceTo : Option Name) : Nat → List PCtx → List PCtx
-  | 0, ps => ps
+def recLevels (env : Env) (e : IREdge) (endpointType recursingFrom : Name) (coerceTo : Option Name) :
+    Nat → List PCtx → R (List PCtx)
+  | 0, ps => .ok ps
   | k + 1, ps =>
-    let ps' := match coerceTo with
-      | some t => recCoerceLevel env t ps
-      | none => ps
-    recLevels env e coerceTo k (recExpandLevel env e ps')
+    (match coerceTo with
+      | some t => recCoerceLevel env e endpointType t ps
+      | none => .ok ps).bind fun ps' =>
+    (recExpandLevel env e recursingFrom ps').bind (recLevels env e endpointType recursingFrom coerceTo k)
 
 /-- The first step of `expand_recursive_edge` for one context. -/
 def recInit (e : IREdge) (c : Ctx) : R Ctx :=
@@ -267,22 +320,26 @@ def recInit (e : IREdge) (c : Ctx) : R Ctx :=
 
 /-- Everything after the activation of the source vertex: the expansion levels, unpacking of the
 piggy-backs, un-suspension. -/
-def recFinish (env : Env) (e : IREdge) (r : Recursive) (init : List Ctx) : R (List Ctx) :=
-  mapR Ctx.ensureUnsuspended
-    (unpackList (recLevels env e r.coerceTo (r.depth - 1)
-      (recExpandLevel env e (init.map fun c => PCtx.mk c []))))
+def recFinish (env : Env) (e : IREdge) (r : Recursive) (fromV toV : IRVertex) (init : List Ctx) :
+    R (List Ctx) :=
+  let endpointType := toV.coercedFrom.getD toV.typeName
+  let recursingFrom := r.coerceTo.getD endpointType
+  (recExpandLevel env e fromV.typeName (init.map fun c => PCtx.mk c [])).bind fun level1 =>
+  (recLevels env e endpointType recursingFrom r.coerceTo (r.depth - 1) level1).bind fun final =>
+  mapR Ctx.ensureUnsuspended (unpackList final)
 
 /-- `expand_recursive_edge` + `post_process_recursive_expansion`. -/
-def expandRecursive (env : Env) (e : IREdge) (r : Recursive) (ctxs : List Ctx) : R (List Ctx) :=
-  (mapR (recInit e) ctxs).bind (recFinish env e r)
+def expandRecursive (env : Env) (e : IREdge) (r : Recursive) (fromV toV : IRVertex)
+    (ctxs : List Ctx) : R (List Ctx) :=
+  (mapR (recInit e) ctxs).bind (recFinish env e r fromV toV)
 
 /-- `expand_edge`. -/
 def expandEdge (env : Env) (comp : Component) (e : IREdge) (ctxs : List Ctx) : R (List Ctx) :=
   match comp.vertex? e.fromVid, comp.vertex? e.toVid with
-  | some _, some toV =>
+  | some fromV, some toV =>
     (match e.recursive with
-      | some r => expandRecursive env e r ctxs
-      | none => expandNonRecursive env e ctxs).bind (enterVertex env comp toV)
+      | some r => expandRecursive env e r fromV toV ctxs
+      | none => expandNonRecursive env fromV.typeName e ctxs).bind (enterVertex env comp toV)
   | _, _ => .panic "component.vertices[&vid]"
 
 /-! ### folds -/
@@ -391,9 +448,9 @@ def importTag (env : Env) (parent : Component) (r : FieldRef) (c : Ctx) : R Ctx 
   | .ctx vid field _ =>
     match parent.vertex? vid with
     | none => .panic "parent_component.vertices[&field.vertex_id]"
-    | some _ => do
+    | some vx => do
       let c' ← c.activate vid
-      let value := env.data.propOpt c'.active field
+      let value ← env.adapter.prop vid vx.typeName field c'.active
       let t := match c'.active with
         | some _ => Tagged.some value
         | none => Tagged.nonexistent
@@ -446,10 +503,11 @@ def lookupFolded (l : List ((Eid × Name) × Option Value)) (k : Eid × Name) : 
   (l.find? (fun p => p.1.1 == k.1 && p.1.2 == k.2)).map (·.2)
 
 /-- the values of one output of the fold's component over the element contexts -/
-def foldOutputColumn (env : Env) (o : OutputDef) (es : List Ctx) : R (List Value) :=
+def foldOutputColumn (env : Env) (comp : Component) (o : OutputDef) (es : List Ctx) : R (List Value) :=
+  (comp.typeOf o.vid).bind fun t =>
   mapR (fun (c : Ctx) =>
     match c.vertexAt? o.vid with
-    | some v => R.ok (env.data.propOpt v o.field)
+    | some v => env.adapter.prop o.vid t o.field v
     | none => R.panic "context.vertices[&vertex_id]") es
 
 /-- The values a fold contributes to `folded_values` of one surviving context. -/
@@ -464,7 +522,7 @@ def foldOutputs (env : Env) (fold : Fold) (elems : Option (List Ctx)) :
     let es := e0 :: erest
     -- own outputs: one list per output name, aligned with the elements
     let own ← mapR (fun (o : OutputDef) => do
-      let vals ← foldOutputColumn env o es
+      let vals ← foldOutputColumn env fold.component o es
       pure ((eid, o.name), some (Value.list vals))) fold.component.outputs
     -- nested folds' outputs: keys as they occur in the element contexts
     let nested := (e0.foldedValues.map (·.1)).map fun k =>
@@ -502,10 +560,12 @@ def mergeStages : List IREdge → List Fold → Nat → R (List Stage)
   | _ :: _, _ :: _, 0 => .fuel
 
 /-- the fold limits of `compute_fold`, computed once per fold (they do not depend on the contexts) -/
-def foldLimits (env : Env) (parent : Component) (fold : Fold) : R (Option Nat × Option Nat) := do
-  let maxL ← maxFoldLimit env fold.post none
-  let minL ← effectiveMinLimit env parent fold
-  pure (maxL, minL)
+def foldLimits (env : Env) (parent : Component) (fold : Fold) : R (Option Nat × Option Nat) :=
+  if env.useLimits then do
+    let maxL ← maxFoldLimit env fold.post none
+    let minL ← effectiveMinLimit env parent fold
+    pure (maxL, minL)
+  else .ok (none, none)
 
 /-- What happens to one context once the fold's elements are known: slot insertion, removal of
 the imported tags, post-filters, outputs. -/
@@ -531,9 +591,8 @@ def foldFinish (env : Env) (parent : Component) (fold : Fold) (lim : Option Nat 
         | none => pure none
 
 /-- the contexts the fold's sub-pipeline starts from, for one outer context -/
-def foldStart (env : Env) (fold : Fold) (c : Ctx) : List Ctx :=
-  (env.data.nbrsOpt c.active fold.name fold.params).map fun n =>
-    { Ctx.new (some n) with importedTags := c.importedTags }
+def foldStart (c : Ctx) (ns : List VertexId) : List Ctx :=
+  ns.map fun n => { Ctx.new (some n) with importedTags := c.importedTags }
 
 mutual
 /-- `compute_component`. -/
@@ -561,15 +620,16 @@ def computeFold (env : Env) : Nat → Component → Fold → List Ctx → R (Lis
   | fuel, parent, fold, ctxs =>
     match parent.vertex? fold.fromVid with
     | none => .panic "component.vertices[&fold.from_vid]"
-    | some _ =>
+    | some fromV =>
       (mapR (importTags env parent fold.imports) ctxs).bind fun ctxs1 =>
       (mapR (fun c => c.activate fold.fromVid) ctxs1).bind fun ctxs2 =>
       (foldLimits env parent fold).bind fun lim =>
-      filterMapR (fun c => foldOne env fuel parent fold lim c) ctxs2
+      filterMapR (fun c => foldOne env fuel parent fold fromV.typeName lim c) ctxs2
 /-- the body of `folded_iterator` / post-filters / `final_iterator` for one context -/
-def foldOne (env : Env) : Nat → Component → Fold → Option Nat × Option Nat → Ctx → R (Option Ctx)
-  | fuel, parent, fold, lim, c =>
-    (computeComponent env fuel fold.component (foldStart env fold c)).bind
+def foldOne (env : Env) : Nat → Component → Fold → Name → Option Nat × Option Nat → Ctx → R (Option Ctx)
+  | fuel, parent, fold, fromType, lim, c =>
+    (env.adapter.nbrs fold.eid fromType fold.name fold.params c.active).bind fun ns =>
+    (computeComponent env fuel fold.component (foldStart c ns)).bind
       (foldFinish env parent fold lim c)
 end
 
@@ -579,7 +639,10 @@ end
 def constructRow (env : Env) (comp : Component) (c : Ctx) : R Row := do
   let own ← mapR (fun (o : OutputDef) =>
       match c.vertexAt? o.vid with
-      | some v => R.ok (o.name, env.data.propOpt v o.field)
+      | some v => do
+        let t ← comp.typeOf o.vid
+        let x ← env.adapter.prop o.vid t o.field v
+        pure (o.name, x)
       | none => R.panic "context.vertices[&vertex_id]") comp.outputs
   let folded := c.foldedValues.map fun p => (p.1.2, p.2.getD Value.null)
   let all := own ++ folded
@@ -598,6 +661,6 @@ def interpretFrom (env : Env) (ir : IRQuery) (starts : List VertexId) : R (List 
 
 /-- `interpret_ir` after argument validation. -/
 def interpret (env : Env) (ir : IRQuery) : R (List Row) :=
-  interpretFrom env ir (env.data.start ir.rootName ir.rootParams)
+  (env.adapter.start ir.rootName ir.rootParams ir.rootComponent.root).bind (interpretFrom env ir)
 
 end TF.Engine
